@@ -75,6 +75,9 @@ def main():
                     for l in per[c][1][:2]:
                         print('      ', c, l)
         print('items: %d, not as expected: %d' % (len(res), bad))
+        if which in ('seeded', 'all') and not only and '--checks' not in sys.argv:
+            det = {name: sorted(c for c, (rc, _l) in per.items() if rc == 1) for (kind, name), per in res.items() if kind == 'seeded'}
+            json.dump(det, open(os.path.join(VERIF, 'seeded', 'DETECTION.json'), 'w'), indent=1, sort_keys=True)
     finally:
         shutil.rmtree(root, ignore_errors=True)
     return 0
